@@ -156,7 +156,7 @@ inline std::string apply_vary_params(const hz::Plan &p, PTree &prm, const std::s
             if (r.chance(0.4)) putb(rpre + "scale", r.chance(0.5)); if (allow_random_vector && r.chance(0.3)) puti(rpre + "power_iters", (long)r.range(1, 6)); }
     }
     if (!coarsening.empty()) {
-        if (coarsening == "ruge_stuben") { if (r.chance(0.5)) put(cpre + "eps_strong", pick({0.1, 0.25, 0.5})); if (r.chance(0.4)) putb(cpre + "do_trunc", r.chance(0.5)); if (r.chance(0.3)) put(cpre + "eps_trunc", pick({0.1, 0.2, 0.4})); }
+        if (coarsening == "ruge_stuben") { if (r.chance(0.5)) put(cpre + "eps_strong", pick({0.1, 0.25, 0.5})); if (r.chance(0.4)) putb(cpre + "do_trunc", r.chance(0.5)); if (r.chance(0.3)) put(cpre + "eps_trunc", pick({0.1, 0.2, 0.25, 0.5})); }
         else { if (r.chance(0.5)) put(cpre + "aggr.eps_strong", pick({0, 0.04, 0.08, 0.2, 0.5})); }
         if (coarsening == "aggregation" && r.chance(0.5)) put(cpre + "over_interp", pick({1, 1.5, 2}));
         if (coarsening == "smoothed_aggregation") { if (r.chance(0.4)) put(cpre + "relax", pick({0.5, 1, 1.5})); if (allow_random_vector && r.chance(0.25)) { putb(cpre + "estimate_spectral_radius", true); puti(cpre + "power_iters", (long)r.range(0, 5)); } }
